@@ -311,11 +311,9 @@ func (fv floatValue) ToString(b io.Writer, s px.FormatContext, g px.RDetect) {
 		}
 	case 's':
 		f.ApplyStringFlags(b, floatGFormat(defaultFormatS, float64(fv)), f.IsAlt())
-	case 'a', 'A':
-		// TODO: Implement this or list as limitation?
-		panic(s.UnsupportedFormat(fv.PType(), `dxXobBeEfgGaAsp`, f))
 	default:
-		panic(s.UnsupportedFormat(fv.PType(), `dxXobBeEfgGaAsp`, f))
+		// TODO: Implement 'a' and 'A' (hexadecimal floating point) or list as limitation?
+		panic(s.UnsupportedFormat(fv.PType(), `dxXobBeEfgGsp`, f))
 	}
 }
 
